@@ -1119,16 +1119,21 @@ impl ContextualHuffmanEncoder {
                     let context = data[i - 1] as u32;
                     let symbol = data[i];
                     
-                    // Try context-specific tree first
+                    // A mapped context is coded with its own tree: the decoder picks the tree
+                    // from the context alone, so switching to the Order-0 code for a symbol the
+                    // context tree lacks would not be decodable
                     if let Some(&tree_idx) = self.context_map.get(&context) {
                         let tree = &self.trees[tree_idx];
                         if let Some(code) = tree.get_code(symbol) {
                             bits.extend_from_slice(code);
                             continue;
                         }
+                        return Err(ZiporaError::invalid_data(format!(
+                            "Symbol {} not in the tree of context {}", symbol, context
+                        )));
                     }
-                    
-                    // Fallback to Order-0 tree for unknown contexts/symbols
+
+                    // Fallback to Order-0 tree for unknown contexts
                     if let Some(code) = self.trees[0].get_code(symbol) {
                         bits.extend_from_slice(code);
                     } else {
@@ -1156,16 +1161,21 @@ impl ContextualHuffmanEncoder {
                     let context = ((data[i - 2] as u32) << 8) | (data[i - 1] as u32);
                     let symbol = data[i];
                     
-                    // Try context-specific tree first
+                    // A mapped context is coded with its own tree: the decoder picks the tree
+                    // from the context alone, so switching to the Order-0 code for a symbol the
+                    // context tree lacks would not be decodable
                     if let Some(&tree_idx) = self.context_map.get(&context) {
                         let tree = &self.trees[tree_idx];
                         if let Some(code) = tree.get_code(symbol) {
                             bits.extend_from_slice(code);
                             continue;
                         }
+                        return Err(ZiporaError::invalid_data(format!(
+                            "Symbol {} not in the tree of context {}", symbol, context
+                        )));
                     }
-                    
-                    // Fallback to Order-0 tree for unknown contexts/symbols
+
+                    // Fallback to Order-0 tree for unknown contexts
                     if let Some(code) = self.trees[0].get_code(symbol) {
                         bits.extend_from_slice(code);
                     } else {
